@@ -52,9 +52,9 @@ RULES = [
     R(r"read\.rs", r"VarSize::read_len_at$", [M("ReadIter.readLenAt"), H("iters")]),
     R(r"read\.rs", r"VarSize::total_len_for_count$", [M("ReadIter.totalLenForCount"), H("iters")]),
     R(r"read\.rs", r".*", [H("shapes")]),
-    R(r"src/array\.rs", r"ComputedArray::(new|len|is_empty)$", [M("ReadIter.computedLen"), H("iters")]),
+    R(r"src/array\.rs", r"ComputedArray::(new|len|is_empty)$", [M("HandRead.compLen"), M("ReadIter.computedLen"), H("iters"), H("traverse.debug")]),
     R(r"src/array\.rs", r"ComputedArray::iter$", [M("ReadIter.computedIterStep"), H("iters")]),
-    R(r"src/array\.rs", r"ComputedArray::get$", [M("ReadIter.computedGet"), H("iters")]),
+    R(r"src/array\.rs", r"ComputedArray::get$", [M("HandRead.compGet"), M("ReadIter.computedGet"), H("iters"), H("traverse.debug")]),
     R(r"src/array\.rs", r"VarLenArray::iter$", [M("ReadIter.varIterStep"), H("iters")]),
     R(r"src/array\.rs", r"VarLenArray::get$", [M("ReadIter.varGet"), H("iters")]),
     R(r"src/array\.rs", r".*", [H("iters")]),
